@@ -34,17 +34,24 @@ def main():
         for d in demos:
             if not d.endswith(".go"):
                 continue
-            m = re.search(r"([\w/\.\-]*" + re.escape(os.path.basename(d)) + ")", readme)
             pkgdir = None
-            for cand in re.findall(r"(?:repo/)?((?:impl|channels|channelmonitor|network|transport/graphsync|message/message1_1prime|itest|channelsubscriptions|testutil|registry)[\w/]*)", readme):
-                if os.path.isdir(os.path.join(W, cand)) :
-                    pkgdir = cand; break
-                if os.path.isdir(os.path.join(W, os.path.dirname(cand))):
-                    pkgdir = os.path.dirname(cand); break
+            for m in re.finditer(r"([\w/\.\-]*/)" + re.escape(os.path.basename(d)), readme + " " + json.dumps(meta)):
+                cand = m.group(1).rstrip("/")
+                if "repo/" in cand:
+                    cand = cand.split("repo/", 1)[1]
+                cand = cand.lstrip("./")
+                if cand and os.path.isdir(os.path.join(W, cand)):
+                    pkgdir = cand
+                    break
+            if pkgdir is None:
+                for m in re.finditer(r"(?:in|into|under|at)\s+`?(?:\S*repo/)?((?:impl|channels|channelmonitor|network|transport/graphsync|message/message1_1prime|itest|channelsubscriptions)/?)`?", readme + " " + json.dumps(meta)):
+                    if os.path.isdir(os.path.join(W, m.group(1))):
+                        pkgdir = m.group(1).rstrip("/")
+                        break
             if pkgdir is None:
                 txt = open(d).read()
                 pk = re.search(r"^package (\w+)", txt, re.M).group(1).replace("_test", "")
-                guess = {"impl": "impl", "channels": "channels", "channelmonitor": "channelmonitor", "network": "network", "graphsync": "transport/graphsync", "message1_1": "message/message1_1prime", "itest": "itest", "datatransfer": "."}
+                guess = {"impl": "impl", "channels": "channels", "channelmonitor": "channelmonitor", "network": "network", "graphsync": "transport/graphsync", "message1_1": "message/message1_1prime", "itest": "itest", "datatransfer": ".", "channelsubscriptions": "channelsubscriptions"}
                 pkgdir = guess.get(pk, pk)
             shutil.copy(d, os.path.join(W, pkgdir))
             placed.append((pkgdir, os.path.basename(d)))
